@@ -247,5 +247,14 @@ def check(repo: Repo, R) -> None:
         shared.conds_imply(cds, [(shared.parse_cond("m.ports.get(name) is None"), True)]) is True for v, cds in ralts if v == "m.signals.get(name)") and shared.raises_under(
         fs.node, [("m.ports.get(name) is None", True), ("m.signals.get(name) is None", True)]) 
     R.check(ok, rule, key_of(fs), fs.site, f"nets are found by exact name among ports and signals, else it raises: {ok}", why="a missing net silently connects to None")
+
+    # ---- 6 nothing is remembered between calls
+    rule = "C16.6-no-state-between-calls"
+    sample = ast.parse("from functools import lru_cache\n_seen = dict()\n@lru_cache(maxsize=None)\ndef g(m):\n    return 1\ndef f(m, memo={}):\n    memo[m] = 1\n    _seen[m.name] = m\n")
+    if len(shared.cross_call_state(sample)) != 3:
+        raise AnalysisError("self-check failed: the cross-call-state rule does not see its positive sample")
+    st_ = shared.cross_call_state(repo.file(F_FLATTEN).tree)
+    R.check(not st_, rule, f"{F_FLATTEN}::state", F_FLATTEN, f"{F_FLATTEN} remembers nothing from one call to the next (no written module-level table, memoising decorator, written default argument or function attribute)" if not st_ else f"state kept between calls: {st_}",
+            why="Modules are mutable until elaborated and a failed flatten leaves a half-built result: an answer remembered from an earlier call (is_flat before an instance was added, a result registered before it was complete) is returned for a design it no longer describes")
     R.floor("C16.1-leaf-kinds-agree", 3)
     R.floor("C16.3-generated-names-unique", 4)
